@@ -468,7 +468,19 @@ func init() {
 		name := n
 		reg(name, func(fr *frame, a []Value) Value { return fr.w.syncOp(fr, name, a) })
 	}
-	reg("(*sync.Mutex).TryLock", func(fr *frame, a []Value) Value { return true })
+	reg("(*sync.Mutex).TryLock", func(fr *frame, a []Value) Value {
+		if s := fr.w.sched; s != nil {
+			p, _ := a[0].(*Value)
+			fr.w.yieldPoint(nil, "trylock")
+			if s.locked[p] {
+				return false
+			}
+			s.locked[p] = true
+			fr.w.raceAcquire(p)
+			return true
+		}
+		return true
+	})
 	reg("(*sync.WaitGroup).Add", func(fr *frame, a []Value) Value { return fr.w.syncOp(fr, "wg.Add", a) })
 	reg("(*sync.WaitGroup).Done", func(fr *frame, a []Value) Value { return fr.w.syncOp(fr, "wg.Done", a) })
 	reg("(*sync.WaitGroup).Wait", func(fr *frame, a []Value) Value { return fr.w.syncOp(fr, "wg.Wait", a) })
